@@ -605,6 +605,79 @@ fn f10() -> Vec<Case> {
     out
 }
 
+
+/// F11: a function's own name inside its body is a name like any other.  It refers to the variable the `fn`
+/// statement declared - a module global looked up when the use executes, or the enclosing local, shared
+/// with everything else that captured it - not to "the function that is running": after the name is bound
+/// to something else, a stored copy of the old function that mentions the name means the new value; a
+/// function may assign to its own name; recursion through a renamed copy still reaches what the name says.
+fn f11() -> Vec<Case> {
+    let mut out = Vec::new();
+    let pr = |e: Expr| print_stmt(e);
+    for scope in 0..3usize {
+        // 0: module globals, 1: locals of a block, 2: locals of a function
+        let place = |body: Vec<Stmt>| -> Vec<Stmt> {
+            match scope {
+                0 => body,
+                1 => vec![block(body)],
+                _ => vec![fn_stmt(func("scope", &[], body)), expr_stmt(call(var("scope"), vec![]))],
+            }
+        };
+        // (a) the name is rebound after a copy was stored: the copy's use of the name means the new value
+        out.push(wrapable(
+            "F11_a_functions_own_name_in_its_body",
+            place(vec![
+                fn_stmt(func("greet", &[], vec![st(StmtKind::Return(Some(Expr::VecLit(vec![s("old greet; the name now means"), call(var("type"), vec![var("greet")])]))))])),
+                var_stmt("kept", var("greet")),
+                pr(call(var("kept"), vec![])),
+                expr_stmt(assign("greet", num(42.0))),
+                pr(call(var("kept"), vec![])),
+                expr_stmt(assign("greet", lambda_expr(&[], s("second greet")))),
+                pr(call(var("kept"), vec![])),
+                pr(call(var("greet"), vec![])),
+            ]),
+        ));
+        // (b) a function that replaces itself
+        out.push(wrapable(
+            "F11_a_functions_own_name_in_its_body",
+            place(vec![
+                fn_stmt(func("once", &[], vec![expr_stmt(assign("once", lambda_expr(&[], s("already done")))), st(StmtKind::Return(Some(s("first time"))))])),
+                var_stmt("first", var("once")),
+                pr(call(var("once"), vec![])),
+                pr(call(var("once"), vec![])),
+                pr(call(var("first"), vec![])),
+                pr(call(var("once"), vec![])),
+            ]),
+        ));
+        // (c) recursion through a renamed copy goes where the name says
+        out.push(wrapable(
+            "F11_a_functions_own_name_in_its_body",
+            place(vec![
+                fn_stmt(func("count", &["n"], vec![st(StmtKind::If(bin(BinOp::Le, var("n"), num(0.0)), vec![st(StmtKind::Return(Some(s("bottom of the old count"))))], None)), st(StmtKind::Return(Some(call(var("count"), vec![bin(BinOp::Sub, var("n"), num(1.0))]))))])),
+                var_stmt("old", var("count")),
+                pr(call(var("old"), vec![num(2.0)])),
+                expr_stmt(assign("count", lambda_expr(&["n"], Expr::VecLit(vec![s("new count got"), var("n")])))),
+                pr(call(var("old"), vec![num(2.0)])),
+                pr(call(var("old"), vec![num(0.0)])),
+            ]),
+        ));
+        // (d) a closure made by the function over its own name, and a nested function with the same name
+        out.push(wrapable(
+            "F11_a_functions_own_name_in_its_body",
+            place(vec![
+                fn_stmt(func("maker", &[], vec![st(StmtKind::Return(Some(lambda_expr(&[], call(var("type"), vec![var("maker")])))))])),
+                var_stmt("reader", call(var("maker"), vec![])),
+                pr(call(var("reader"), vec![])),
+                expr_stmt(assign("maker", s("a string now"))),
+                pr(call(var("reader"), vec![])),
+                fn_stmt(func("outer", &[], vec![fn_stmt(func("outer", &[], vec![st(StmtKind::Return(Some(s("the inner outer"))))])), st(StmtKind::Return(Some(call(var("outer"), vec![]))))])),
+                pr(call(var("outer"), vec![])),
+            ]),
+        ));
+    }
+    out
+}
+
 /// the three metamorphic wrappings: the same statements as a block, a function called once, a fiber
 /// called once (top-level declarations become locals / captured variables on another fiber's stack)
 fn wrappings(c: &Case) -> Vec<Case> {
@@ -628,6 +701,7 @@ pub fn cases_for_c04(thorough: bool) -> Vec<Case> {
     v.extend(f7(false).into_iter().enumerate().filter(|(i, _)| thorough || i % 8 == 0).map(|(_, c)| c));
     v.extend(f9());
     v.extend(f10());
+    v.extend(f11());
     v
 }
 
@@ -645,6 +719,7 @@ pub fn run(ctx: &Ctx) -> Report {
     base.extend(f7(thorough));
     base.extend(f9());
     base.extend(f10());
+    base.extend(f11());
     let mut all: Vec<Case> = Vec::new();
     for (i, c) in base.iter().enumerate() {
         // every program in the thorough tier, every fourth in the quick tier, is also run in its wrappings
@@ -667,7 +742,7 @@ pub fn run(ctx: &Ctx) -> Report {
     mcheck::fill_report(
         &mut report,
         &stats,
-        "F1: every combination of scope kind (block, function, lambda, method, while body, for body, try body) x exit (fall through, return, break, continue, throw) x two closures with every read/write action over two variables, created through 0-2 intermediate function levels, called inside the scope, escaped, and called in several orders after the scope has exited; F2: fresh variables per iteration/activation; F3: shadowing at depth 1-3 with a closure and a write at every level; F4: textual resolution and late-bound globals; F5: 1-3 closures over 1-3 shared variables, slot reuse; F6: captures of a try body left by exception or return; F7: capture order - three variables, up to three closures each with every ordered capture list (15 lists), so captures happen in every order relative to declaration order and to earlier captures; F10: closures made in finally / catch blocks over the loop body's locals when the iteration is left by continue / break from inside the try statement (every iteration has variables of its own); F9: locals captured before a try statement stay shared with their closures after an exception was raised inside it and handled in the same frame; F8: closures made straight after control came back from another module (exception caught, call returned, fiber finished, exception through a finally block). Each program also runs wrapped in a block, a function and a fiber, and in a fiber that is suspended after every statement of every block and function and resumed until it has finished. non-trivial = at least three observations printed.",
+        "F1: every combination of scope kind (block, function, lambda, method, while body, for body, try body) x exit (fall through, return, break, continue, throw) x two closures with every read/write action over two variables, created through 0-2 intermediate function levels, called inside the scope, escaped, and called in several orders after the scope has exited; F2: fresh variables per iteration/activation; F3: shadowing at depth 1-3 with a closure and a write at every level; F4: textual resolution and late-bound globals; F5: 1-3 closures over 1-3 shared variables, slot reuse; F6: captures of a try body left by exception or return; F7: capture order - three variables, up to three closures each with every ordered capture list (15 lists), so captures happen in every order relative to declaration order and to earlier captures; F10: closures made in finally / catch blocks over the loop body's locals when the iteration is left by continue / break from inside the try statement (every iteration has variables of its own); F9: locals captured before a try statement stay shared with their closures after an exception was raised inside it and handled in the same frame; F11: a function's own name inside its body means the variable the fn statement declared (global, block local, function local): rebound after a copy was stored, assigned by the function itself, recursion through a renamed copy, a closure over the name, a nested function of the same name; F8: closures made straight after control came back from another module (exception caught, call returned, fiber finished, exception through a finally block). Each program also runs wrapped in a block, a function and a fiber, and in a fiber that is suspended after every statement of every block and function and resumed until it has finished. non-trivial = at least three observations printed.",
         json!({"closures": 2, "variables": 2, "intermediate_levels": if thorough { 3 } else { 2 }, "wrappings": 3}),
     );
     report.assumptions = vec!["M-eval's cell-based environments define the intended semantics (DESIGN.md Appendix A)".into()];
